@@ -36,6 +36,11 @@ const SIG_K1B: &str = "rcb-k1b-heavy-left";
 const SIG_K2B: &str = "rcb-k2b-nopoint-rounding";
 const SIG_OTHER: &str = "rcb-unbalanced-other";
 const SIG_PREMISE: &str = "rcb-premise-violated";
+/// what `par_rcb_split` reports contradicts what its fold/reduce must compute on these items,
+/// whatever rayon's chunking (never a rounding effect: both facts are exact in IEEE arithmetic)
+const SIG_REPORT: &str = "rcb-split-report-inconsistent";
+/// from this many items on rayon may split the fold of `par_rcb_split` (`with_min_len(4096)`)
+const LARGE_N: usize = 4096;
 
 // ------------------------------------------------------------------ replica of `par_rcb_split`
 
@@ -211,6 +216,8 @@ struct NodeEval {
     distinct: usize,
     /// exit `nopoint` although an item lies in `[split_pos, max)`: the test was decided by rounding
     spurious_nopoint: bool,
+    /// the reported result contradicts the fold's definition (see `SIG_REPORT`)
+    anomaly: Option<String>,
 }
 
 /// `xs`, `ws`: the node's items (split axis); `order[..split]` = the low side the implementation made.
@@ -298,11 +305,41 @@ fn eval_node(
         Some(r) if r.exit == Exit::NoPoint => xs.iter().any(|&c| split_pos <= c && c < r.fmax),
         _ => false,
     };
-    NodeEval { w, wl, within_tol, brackets, k2_here, premise, below, above, distinct: m, spurious_nopoint }
+    // What the fold + reduce of par_rcb_split must have computed, for ANY chunking and whatever the
+    // float rounding (`c - t < 0.0` is exact: it holds iff `c < t`):
+    //  (1) weight_left = weight of the items strictly left of split_pos (all-left exit: the sum given);
+    //  (2) the pivot – smallest coordinate of the high side – has the smallest ROUNDED distance to
+    //      split_pos among the items at or right of it (K2 is: a nearer item with an EQUAL rounded
+    //      distance; an item with a strictly smaller rounded distance is never passed over).
+    let mut anomaly = None;
+    if split < n {
+        let strictly_left: i64 = (0..n).filter(|&i| xs[i] - split_pos < 0.0).map(|i| ws[i]).sum();
+        if wl_reported != strictly_left {
+            anomaly = Some(format!(
+                "weight_left reported {} but the items strictly left of split_pos {:e} weigh {}",
+                wl_reported, split_pos, strictly_left
+            ));
+        } else {
+            let pv = order[split..].iter().map(|&i| xs[i]).fold(f32::INFINITY, f32::min);
+            let dp = pv - split_pos;
+            if let Some(i) = (0..n).find(|&i| !(xs[i] - split_pos < 0.0) && xs[i] - split_pos < dp) {
+                anomaly = Some(format!(
+                    "pivot coordinate {:e} (rounded distance {:e} to split_pos {:e}) although item {} at {:e} has the smaller rounded distance {:e}",
+                    pv, dp, split_pos, i, xs[i], xs[i] - split_pos
+                ));
+            }
+        }
+    } else if n > 0 && wl_reported != sum_passed {
+        anomaly = Some(format!("all-left exit reports weight_left {} instead of the sum {} it was given", wl_reported, sum_passed));
+    }
+    NodeEval { w, wl, within_tol, brackets, k2_here, premise, below, above, distinct: m, spurious_nopoint, anomaly }
 }
 
-fn signature(k2: bool, exit: Option<Exit>, wl: i64, w: i64, spurious_nopoint: bool) -> &'static str {
-    if k2 {
+fn signature(anomalous: bool, k2: bool, exit: Option<Exit>, wl: i64, w: i64, spurious_nopoint: bool) -> &'static str {
+    if anomalous {
+        // an inconsistent report here or above: whatever follows is not one of the known causes
+        SIG_OTHER
+    } else if k2 {
         SIG_K2
     } else {
         match exit {
@@ -334,6 +371,8 @@ struct NodeOut {
     boxed: bool,
     /// K2 symptom at an ancestor
     k2_above: bool,
+    /// an inconsistent report (`SIG_REPORT`) here or at an ancestor
+    anomalous: bool,
     eval: NodeEval,
 }
 
@@ -398,10 +437,14 @@ fn judge(ctx: &mut Ctx, nodes: &[NodeOut]) -> Vec<(String, String)> {
         if !nd.boxed {
             ctx.count(if nd.k2_above { "node_box_not_containing_below_k2" } else { "node_box_not_containing_without_k2" });
         }
+        if let Some(a) = &e.anomaly {
+            ctx.count("node_report_inconsistent");
+            add(SIG_REPORT, format!("node {} (axis {}, {} items): {}", nd.path, nd.coord, nd.n, a));
+        }
         if e.within_tol || e.brackets {
             continue;
         }
-        let sig = signature(nd.k2, nd.exit, e.wl, e.w, e.spurious_nopoint);
+        let sig = signature(nd.anomalous, nd.k2, nd.exit, e.wl, e.w, e.spurious_nopoint);
         ctx.count(&format!("node_fail_{}", sig));
         let what = format!(
             "node {} (axis {}, {} items, {} distinct values) exit {}: low side weighs {} of {} \
@@ -532,6 +575,9 @@ struct Replay<'a> {
     ws: &'a [i64],
     part: Vec<usize>,
     nodes: Vec<NodeOut>,
+    /// nodes of `LARGE_N` items or more where the (sequential) replica picked another pivot than the
+    /// real multi-chunk fold: legitimate, the index among equal rounded distances depends on rayon's split
+    chunk_ties: usize,
 }
 
 impl Replay<'_> {
@@ -548,6 +594,7 @@ impl Replay<'_> {
         bb_max: Vec<f32>,
         path: String,
         k2_above: bool,
+        anomalous_above: bool,
     ) {
         if items.is_empty() {
             return;
@@ -587,13 +634,17 @@ impl Replay<'_> {
                     };
                     low_h.sort_unstable();
                     low_r.sort_unstable();
-                    if wl != r.weight_left
-                        || sp.to_bits() != r.split_pos.to_bits()
-                        || low_h != low_r
-                        || *rs != s
-                        || *ro != o
-                    {
+                    if wl != r.weight_left || sp.to_bits() != r.split_pos.to_bits() {
                         mismatch = true;
+                    } else if low_h != low_r || *rs != s || *ro != o {
+                        if n >= LARGE_N {
+                            // several chunks: which of several items with the same rounded distance
+                            // becomes the pivot (hence the order, and under K2 the low set) depends
+                            // on rayon's split; the replica is one sequential chunk
+                            self.chunk_ties += 1;
+                        } else {
+                            mismatch = true;
+                        }
                     }
                 }
                 _ => mismatch = true,
@@ -602,6 +653,7 @@ impl Replay<'_> {
         };
         let eval = eval_node(&local[coord], &lws, &order, split, sum, wl_reported, split_pos, self.tol, rep.as_ref());
         let k2 = k2_above || eval.k2_here;
+        let anomalous = anomalous_above || eval.anomaly.is_some();
         // the box rcb_recurse hands down contains the node's items unless a cut above went wrong (K2)
         let boxed = local[coord].iter().all(|&c| min <= c && c <= max);
         self.nodes.push(NodeOut {
@@ -618,6 +670,7 @@ impl Replay<'_> {
             k2,
             boxed,
             k2_above,
+            anomalous,
             eval,
         });
         let low: Vec<usize> = order[..split].iter().map(|&k| items[k]).collect();
@@ -627,13 +680,13 @@ impl Replay<'_> {
         let mut min_high = bb_min.clone();
         min_high[coord] = split_pos;
         let next = (coord + 1) % self.d;
-        self.recurse(low, iter_count - 1, 2 * iter_id + 1, next, wl_reported, bb_min, max_low, format!("{}L", path), k2);
-        self.recurse(high, iter_count - 1, 2 * iter_id + 2, next, sum - wl_reported, min_high, bb_max, format!("{}H", path), k2);
+        self.recurse(low, iter_count - 1, 2 * iter_id + 1, next, wl_reported, bb_min, max_low, format!("{}L", path), k2, anomalous);
+        self.recurse(high, iter_count - 1, 2 * iter_id + 2, next, sum - wl_reported, min_high, bb_max, format!("{}H", path), k2, anomalous);
     }
 }
 
 /// `rcb` on `n ≥ 1` points: the part ids and the bisection nodes in pre-order.
-fn replay_rcb(d: usize, iter: usize, tol: f64, ws: &[i64], xs: &[f64]) -> (Vec<usize>, Vec<NodeOut>) {
+fn replay_rcb(d: usize, iter: usize, tol: f64, ws: &[i64], xs: &[f64]) -> (Vec<usize>, Vec<NodeOut>, usize) {
     let n = ws.len();
     let pts: Vec<Vec<f32>> = (0..d).map(|c| xs.chunks_exact(d).map(|p| p[c] as f32).collect()).collect();
     // `BoundingBox::from_points` on the f64 points, read through `as f32`
@@ -653,12 +706,12 @@ fn replay_rcb(d: usize, iter: usize, tol: f64, ws: &[i64], xs: &[f64]) -> (Vec<u
         bb_min.push(lo as f32);
         bb_max.push(hi as f32);
     }
-    let mut rp = Replay { d, tol, pts: &pts, ws, part: vec![0; n], nodes: Vec::new() };
+    let mut rp = Replay { d, tol, pts: &pts, ws, part: vec![0; n], nodes: Vec::new(), chunk_ties: 0 };
     let sum: i64 = ws.iter().sum();
-    rp.recurse((0..n).collect(), iter, 0, 0, sum, bb_min, bb_max, "r".to_string(), false);
+    rp.recurse((0..n).collect(), iter, 0, 0, sum, bb_min, bb_max, "r".to_string(), false, false);
     let off = rp.part.iter().copied().min().unwrap_or(0);
     let ids = rp.part.iter().map(|p| p - off).collect();
-    (ids, rp.nodes)
+    (ids, rp.nodes, rp.chunk_ties)
 }
 
 // ------------------------------------------------------------------ protocol
@@ -873,6 +926,51 @@ fn ids_only_unbalanced(d: usize, k: usize, tol: f64, ws: &[i64], xs: &[f64], ids
     first
 }
 
+/// C03's tree oracle on the ids alone: under some offset the ids are leaf codes of a binary tree
+/// whose level `l` separates STRICTLY on axis `l % d` (f32 coordinates). `None` = holds.
+fn ids_not_bisection(d: usize, k: usize, xs: &[f64], ids: &[usize]) -> Option<String> {
+    let n = ids.len();
+    if n == 0 || k > 16 || xs.len() != n * d {
+        return None;
+    }
+    let x: Vec<f32> = xs.iter().map(|v| *v as f32).collect();
+    let leaves = 1usize << k;
+    let max_id = *ids.iter().max().unwrap();
+    if max_id >= leaves {
+        return Some(format!("id {} with iter_count {}", max_id, k));
+    }
+    let mut first: Option<String> = None;
+    'offsets: for o in 0..=(leaves - 1 - max_id) {
+        for lvl in 0..k {
+            let axis = lvl % d;
+            let nodes = 1usize << lvl;
+            let mut lo = vec![f32::NEG_INFINITY; nodes];
+            let mut hi = vec![f32::INFINITY; nodes];
+            for i in 0..n {
+                let code = ids[i] + o;
+                let node = code >> (k - lvl);
+                let v = x[i * d + axis];
+                if (code >> (k - 1 - lvl)) & 1 == 1 {
+                    hi[node] = hi[node].min(v);
+                } else {
+                    lo[node] = lo[node].max(v);
+                }
+            }
+            if let Some(node) = (0..nodes).find(|&q| !(lo[q] < hi[q])) {
+                if first.is_none() {
+                    first = Some(format!(
+                        "offset {} level {} node {} axis {}: largest low-side coordinate {:e} >= smallest high-side coordinate {:e}",
+                        o, lvl, node, axis, lo[node], hi[node]
+                    ));
+                }
+                continue 'offsets;
+            }
+        }
+        return None;
+    }
+    first
+}
+
 #[allow(clippy::too_many_arguments)]
 fn run_tree(ctx: &mut Ctx, op: &str, rib: bool, d: usize, iter: usize, tol: f64, threads: usize, ws: Vec<i64>, orig: Vec<f64>, rot: Vec<f64>) {
     let n = ws.len();
@@ -918,11 +1016,20 @@ fn run_tree(ctx: &mut Ctx, op: &str, rib: bool, d: usize, iter: usize, tol: f64,
     }
     // the trace: replay on the points Rcb works on
     let pts = if rib { &rot } else { &orig };
+    let large = n >= LARGE_N;
+    if large {
+        ctx.count("large_n_tree_case");
+    }
     let replay = {
         let (ws2, pts2) = (ws.clone(), pts.clone());
-        catch(move || replay_rcb(d, iter, tol, &ws2, &pts2))
+        if large {
+            // the hook runs the real fold: give it the pool of the API run so that rayon splits it alike
+            catch(move || with_pool(pool_size(threads), || replay_rcb(d, iter, tol, &ws2, &pts2)))
+        } else {
+            catch(move || replay_rcb(d, iter, tol, &ws2, &pts2))
+        }
     };
-    let (rids, nodes) = match replay {
+    let (rids, nodes, chunk_ties) = match replay {
         Caught::Ok(v) => v,
         Caught::Panic(m) => {
             // the API ran through but a hook call did not: harness/hook inconsistency
@@ -932,6 +1039,21 @@ fn run_tree(ctx: &mut Ctx, op: &str, rib: bool, d: usize, iter: usize, tol: f64,
         }
         Caught::Hang => unreachable!(),
     };
+    if chunk_ties > 0 {
+        ctx.count("large_n_case_with_chunk_dependent_pivot");
+    }
+    if large && rids != ids {
+        // Several chunks: the index chosen among equal rounded distances depends on rayon's split, so
+        // the API run and the hook replay may legitimately cut a K2-type node differently. The nodes
+        // of the API's tree cannot be attributed to causes then; the ids must still be a bisection.
+        ctx.count("large_n_replay_differs");
+        let verdicts = match ids_not_bisection(d, iter, pts, &ids) {
+            Some(what) => vec![("rcb-not-a-bisection".to_string(), what)],
+            None => vec![],
+        };
+        finish(ctx, op, "ok large-n replay-differs".into(), false, verdicts);
+        return;
+    }
     if rids != ids {
         // The node-by-node replay through the hooks does not reproduce the public API's ids (never
         // on the unchanged tree): the causes cannot be attributed, but the property can still be
@@ -948,11 +1070,23 @@ fn run_tree(ctx: &mut Ctx, op: &str, rib: bool, d: usize, iter: usize, tol: f64,
         ctx.count("sum_drift");
     }
     let mut out = String::from("ok ");
-    out.push_str(&join(&ids));
-    out.push_str(" |");
-    for nd in &nodes {
-        out.push(' ');
-        out.push_str(&nd.token());
+    if large {
+        // no model prediction for these (the driver prints `skip large-n (oracle only)`): keep the line short
+        let mut h = 0xcbf2_9ce4_8422_2325u64;
+        for &i in &ids {
+            h = (h ^ i as u64).wrapping_mul(0x0100_0000_01b3);
+        }
+        write!(out, "large-n n={} nodes={} ids-fnv={:x}", n, nodes.len(), h).unwrap();
+        if nodes.iter().any(|nd| nd.mismatch) {
+            out.push_str(" replica-mismatch");
+        }
+    } else {
+        out.push_str(&join(&ids));
+        out.push_str(" |");
+        for nd in &nodes {
+            out.push(' ');
+            out.push_str(&nd.token());
+        }
     }
     let verdicts = if ws.iter().any(|&w| w < 0) {
         ctx.count("oracle_skipped_negative_weight");
@@ -987,11 +1121,25 @@ fn run_split(ctx: &mut Ctx, op: &str, d: usize, coord: usize, tol: f64, min: f32
     };
     let sum: i64 = ws.iter().sum();
     let rep = replica_split(&axis, &ws, sum, tol, min, max);
+    let large = n >= LARGE_N;
+    if large {
+        ctx.count("large_n_split_case");
+    }
     let mismatch = match &rep {
         None => true,
         Some(r) => {
             let (ro, rs) = replica_reorder(&axis, r.pivot);
-            r.weight_left != wl || r.split_pos.to_bits() != sp.to_bits() || rs != split || ro != order
+            if r.weight_left != wl || r.split_pos.to_bits() != sp.to_bits() {
+                true
+            } else if rs != split || ro != order {
+                // several chunks: the pivot among equal rounded distances depends on rayon's split
+                if large {
+                    ctx.count("large_n_case_with_chunk_dependent_pivot");
+                }
+                !large
+            } else {
+                false
+            }
         }
     };
     let eval = eval_node(&axis, &ws, &order, split.min(order.len()), sum, wl, sp, tol, rep.as_ref());
@@ -1009,9 +1157,14 @@ fn run_split(ctx: &mut Ctx, op: &str, d: usize, coord: usize, tol: f64, min: f32
         k2: eval.k2_here,
         boxed: axis.iter().all(|&c| min <= c && c <= max),
         k2_above: false,
+        anomalous: eval.anomaly.is_some(),
         eval,
     };
-    let out = format!("ok {} {} {} {:x} | {}", node.exit_name(), split, wl, sp.to_bits(), join(&order));
+    let out = if large {
+        format!("ok large-n {} {} {} {:x}", node.exit_name(), split, wl, sp.to_bits())
+    } else {
+        format!("ok {} {} {} {:x} | {}", node.exit_name(), split, wl, sp.to_bits(), join(&order))
+    };
     let verdicts = if n == 0 {
         vec![]
     } else if ws.iter().any(|&w| w < 0) {
@@ -1019,10 +1172,14 @@ fn run_split(ctx: &mut Ctx, op: &str, d: usize, coord: usize, tol: f64, min: f32
         vec![]
     } else if !node.boxed {
         // rcb_recurse never calls the split with a box that misses a point (short of K2 above):
-        // such ops feed the correspondence with the model only, the property makes no claim
+        // such ops feed the correspondence with the model only, the property makes no claim –
+        // except that the report must still be what the fold computes
         ctx.count("split_oracle_skipped_box_not_containing");
         ctx.count(&format!("split_unboxed_exit_{}", node.exit_name()));
-        vec![]
+        match &node.eval.anomaly {
+            Some(a) => vec![(SIG_REPORT.to_string(), format!("split op ({} items): {}", n, a))],
+            None => vec![],
+        }
     } else {
         judge(ctx, std::slice::from_ref(&node))
     };
@@ -1228,8 +1385,17 @@ fn gen_n(rng: &mut Rng, quick: bool) -> usize {
 
 pub fn generate(ctx: &mut Ctx) {
     ctx.notes.push(
-        "all generated inputs have n <= 3000 < 4096 items: below rayon's `with_min_len(4096)` the fold of \
-         par_rcb_split is one sequential chunk, which is what the model (and the replica) is exact for"
+        "model-compared inputs have n <= 3000 < 4096 items: below rayon's `with_min_len(4096)` the fold of \
+         par_rcb_split is one sequential chunk, which is what the model (and the replica) is exact for; the \
+         large-n stream (n in 8192..=20000: rayon splits the fold and runs its reduce) is judged by the oracle \
+         only – node-by-node replay through the par_rcb_split hook, which runs the real multi-chunk fold – and \
+         the model prints `skip large-n (oracle only)`"
+            .into(),
+    );
+    ctx.notes.push(
+        "every node: the reported weight_left must equal the weight strictly left of split_pos and the pivot \
+         must have the smallest rounded distance (exact facts about the fold/reduce, independent of chunking and \
+         of rounding): a contradiction is `rcb-split-report-inconsistent` and is never attributed to K2"
             .into(),
     );
     ctx.notes.push(
@@ -1241,6 +1407,84 @@ pub fn generate(ctx: &mut Ctx) {
     gen_exhaustive(ctx);
     gen_trees(ctx);
     gen_splits(ctx);
+    // last, so that the streams above keep their cases
+    gen_large(ctx);
+}
+
+const LARGE_SHAPES: [&str; 3] = ["uniform_distinct", "grid_duplicates", "clustered"];
+
+/// Points for the large-n stream: well-spread distinct coordinates (equal rounded distances between
+/// distinct coordinates are rare, so the API run and the hook replay agree), a coarse lattice drawn
+/// with repetition (many duplicate points and coordinates), a few dense but f32-distinct clusters.
+fn gen_large_points(rng: &mut Rng, n: usize, d: usize, shape: usize) -> Vec<f64> {
+    let mut xs = vec![0.0f64; n * d];
+    match shape {
+        0 => {
+            for x in xs.iter_mut() {
+                *x = uniform(rng, -10.0, 10.0);
+            }
+        }
+        1 => {
+            let side = 20 + rng.usize(80);
+            let step = *rng.pick(&[1.0f64, 0.5, 0.1]);
+            let off = rng.range(-4, 4) as f64;
+            for x in xs.iter_mut() {
+                *x = rng.usize(side) as f64 * step + off;
+            }
+        }
+        _ => {
+            let m = 3 + rng.usize(4);
+            let centres: Vec<f64> = (0..m * d).map(|_| uniform(rng, -10.0, 10.0)).collect();
+            for q in xs.chunks_exact_mut(d) {
+                let c = rng.usize(m);
+                for a in 0..d {
+                    q[a] = centres[c * d + a] + uniform(rng, -0.5, 0.5);
+                }
+            }
+        }
+    }
+    for x in xs.iter_mut() {
+        *x = clean(*x);
+    }
+    xs
+}
+
+/// n in 8192..=20000: `with_min_len(4096)` lets rayon split the fold of `par_rcb_split` (a producer
+/// of at least 2 x 4096 items is split at least once, even in a 1-thread pool), so the reduce
+/// closure really combines partial results – at least at the root and the first levels.
+fn gen_large(ctx: &mut Ctx) {
+    const POOLS: [usize; 3] = [1, 4, 16];
+    for k in 0..ctx.budget(6, 60) {
+        let d = 2 + (k % 2);
+        let iter = 1 + ctx.rng.usize(4);
+        let tol = gen_tol(&mut ctx.rng);
+        let threads = POOLS[k % 3];
+        let n = 8192 + ctx.rng.usize(20000 - 8192 + 1);
+        let shape = (k / 2) % 3;
+        let xs = gen_large_points(&mut ctx.rng, n, d, shape);
+        let ws: Vec<i64> = if ctx.rng.chance(1, 2) { vec![1; n] } else { (0..n).map(|_| ctx.rng.range(0, 100)).collect() };
+        ctx.count("large_n_rcb");
+        ctx.count(&format!("large_n_shape_{}", LARGE_SHAPES[shape]));
+        ctx.count(&format!("large_n_threads_{}", threads));
+        let op = format_tree_op(false, d, iter, tol, threads, &ws, &xs, &[]);
+        run_op(ctx, &op);
+    }
+    // one search through the hook (global pool: as many workers as cores), exact data interval
+    for k in 0..ctx.budget(2, 20) {
+        let d = 2 + (k % 2);
+        let n = 8192 + ctx.rng.usize(20000 - 8192 + 1);
+        let shape = k % 3;
+        let xs: Vec<f32> = gen_large_points(&mut ctx.rng, n, d, shape).iter().map(|v| *v as f32).collect();
+        let ws: Vec<i64> = if ctx.rng.chance(1, 2) { vec![1; n] } else { (0..n).map(|_| ctx.rng.range(0, 100)).collect() };
+        let coord = ctx.rng.usize(d);
+        let tol = gen_tol(&mut ctx.rng);
+        let col = xs.chunks_exact(d).map(|p| p[coord]);
+        let dmin = col.clone().fold(f32::INFINITY, f32::min);
+        let dmax = col.fold(f32::NEG_INFINITY, f32::max);
+        ctx.count("large_n_split");
+        let op = format_split_op(d, coord, tol, dmin, dmax, &ws, &xs);
+        run_op(ctx, &op);
+    }
 }
 
 /// D = 2, y = 0, iter = 1, tol = 0: all x-vectors over {0,1,2,3,8}.
